@@ -12,7 +12,7 @@ LEVEL_NOTE = [
     "Lean 4.33 kernel; axioms ⊆ {propext, Classical.choice, Quot.sound} (audited each run)",
     "PARTIAL: the theorems are about the transformer (what is stored never depends on keyword case, token positions, quote style or bare-word quoting); that Lark's contextual regex lexer produces the same token kinds for two renderings (terminal priorities, look-aheads, comment terminals, the keyword mechanism) is third-party behaviour the model cannot exhibit — it is exercised on every pair by the oracle",
     "Model/Transformer.lean hand model (correspondence each run)",
-    "rendering domain: a separator always begins with a white-space character (an unquoted PATH followed directly by /* swallows the slash: recorded lexer quirk); the inside of {…} lists and of [binding] brackets is one lexical unit; case is varied on keywords, block types, END and TRUE/FALSE, not on enumerated values (stored as written — the difference C01 allows)",
+    "rendering domain: a separator begins with a white-space character, or is a /* */ comment written flush behind a plain word, an integer or a quoted string (after a token holding '.' or '/' the slash of a flush comment is read as part of a path: recorded lexer quirk, outside the domain); the inside of {…} lists and of [binding] brackets is one lexical unit; case is varied on keywords, block types, END and TRUE/FALSE, not on enumerated values (stored as written — the difference C01 allows)",
 ]
 RULE = ("pairs (plain rendering, wild rendering) of schema-generated documents of every object type; corpus files × random replacement of every between-token gap; "
         "comment bodies include form feeds, vertical tabs, NEL, U+2028, asterisk runs before the closing */, Mapfile-like text and quotes; "
@@ -66,6 +66,20 @@ def bare_words(rng, b):
             b.items.insert(rng.randrange(len(b.items) + 1), ("attr", k, w, [(w, "word")], "string"))
 
 
+FLUSH = None
+
+
+def flush_comments(rng, text):
+    """a /* */ comment may be written directly behind a token, without white space: done for tokens that are a plain word, an
+    integer or a quoted string (after a token holding '.' or '/' the lexer reads the slash as part of a path — the recorded
+    quirk that stays outside the rendering domain).  Generated strings never hold '/*', so only layout is touched."""
+    import re
+    global FLUSH
+    if FLUSH is None:
+        FLUSH = re.compile(r"""(?:(?<=\s)|^)([A-Za-z0-9_]+|"[^"\n]*"|'[^'\n]*')[ \t]+(?=/\*)""")
+    return FLUSH.sub(lambda m: m.group(1) if rng.random() < .5 else m.group(0), text)
+
+
 def gaps_rerender(rng, text):
     """replace every non-empty gap between two tokens of a corpus text by a random separator (gaps inside {…} untouched)"""
     P = trees.parser(False, False)
@@ -100,7 +114,7 @@ def explore(ctx, scale=1.0):
         t = types[i % len(types)] if i < 2 * len(types) else rng.choice(types + ["map", "layer", "class"])
         b = gen.gen_block(rng, t, depth=rng.choice([0, 1, 2, 3]), max_items=rng.choice([3, 6, 9]))
         bare_words(rng, b)
-        pairs.append((gen.render(b), gen.render(b, Wild(rng)), "generated"))
+        pairs.append((gen.render(b), flush_comments(rng, gen.render(b, Wild(rng))), "generated"))
     ctexts = corpus.texts()
     for _, text in (ctexts if ctx.thorough else rng.sample(ctexts, int(80 * scale))):
         for _ in range(3 if ctx.thorough else 1):
